@@ -1,7 +1,7 @@
 """Random-walk scenario generator over the STEP stimulus alphabet (the same alphabet the TLA+ model's
 environment uses). It keeps a rough prediction of which node owes answers so that most generated
 stimuli can be realised; a wrong prediction only yields a skipped stimulus."""
-import random
+import random, json
 
 NODE_OF = {"A": "n1", "A2": "n1", "B": "n2", "B2": "n2", "C": "n3", "C2": "n3"}
 
@@ -162,3 +162,145 @@ def gen_scenario(rng, profile, sid):
 def gen_many(seed, profile, n):
     rng = random.Random("%s/%s" % (seed, profile))
     return [gen_scenario(rng, profile, "%s-%d-%d" % (profile, seed, i)) for i in range(n)]
+
+
+# ---- C06: key lists for the split ----------------------------------------------------------------
+
+def _norm(sc):
+    for st in sc["steps"]:
+        st.setdefault("settle", False)
+        st.setdefault("noIter", False)
+        for s in st["stim"]:
+            for k, v in (("c", ""), ("n", ""), ("reqs", []), ("hex", ""), ("kind", ""), ("cls", ""), ("to", ""), ("count", 0),
+                         ("src", ""), ("text", ""), ("cuts", [])):
+                s.setdefault(k, v)
+            for r in s["reqs"]:
+                r.setdefault("args", [])
+                r.setdefault("dups", [-1] * len(r["slots"]))
+    sc.setdefault("role", "")
+    return sc
+
+
+def gen_keylist(rng, maxkeys, slots):
+    n = rng.choice([1, 2, 2, 3, 3, 4, 5, 6, 8, maxkeys])
+    sl, dups = [], []
+    for j in range(n):
+        if j > 0 and rng.random() < 0.2:
+            t = rng.randrange(j)
+            while dups[t] >= 0:
+                t = dups[t]
+            sl.append(sl[t])
+            dups.append(t)
+        else:
+            sl.append(rng.choice(slots))
+            dups.append(-1)
+    return sl, dups
+
+
+def drain_steps(rounds=3, per=40):
+    st = []
+    for _ in range(rounds):
+        st.append({"stim": [{"op": "answer", "n": n, "kind": "ok", "count": per} for n in ("n1", "n2", "n3")], "settle": True})
+    return st
+
+
+def gen_split(seed, n, maxkeys=12):
+    rng = random.Random("split/%s" % seed)
+    slots = ["A", "A2", "B", "B2", "C", "C2"]
+    out = []
+    for i in range(n):
+        reqs = []
+        for _ in range(rng.choice([1, 1, 2, 3])):
+            k = rng.choice(["mget", "del", "mset", "mget"])
+            sl, du = gen_keylist(rng, maxkeys, slots)
+            reqs.append({"k": k, "slots": sl, "dups": du})
+        steps = [{"stim": [{"op": "send", "c": "c1", "reqs": reqs}]}, {"stim": [], "settle": True}] + drain_steps()
+        out.append(_norm({"id": "split-%s-%d" % (seed, i), "steps": steps}))
+    return out
+
+
+# ---- C08: segmentations of a request stream --------------------------------------------------------
+
+def _cmd(*args):
+    b = b"*%d\r\n" % len(args)
+    for a in args:
+        a = a.encode() if isinstance(a, str) else a
+        b += b"$%d\r\n%s\r\n" % (len(a), a)
+    return b
+
+
+def concrete(tags, c, i, r):
+    """Mirror of hx.Cluster.Concrete (harness/internal/hx/client.go) for the request kinds used here."""
+    dups = r.get("dups") or [-1] * len(r["slots"])
+
+    def key(j):
+        if dups[j] >= 0:
+            j = dups[j]
+        return "{%s}%s.%d.%d" % (tags[r["slots"][j]], c, i, j)
+    k = r["k"]
+    if k == "get":
+        return _cmd("GET", key(0))
+    if k == "set":
+        return _cmd("SET", key(0), "w|%s.%d" % (c, i))
+    if k in ("mget", "del"):
+        return _cmd(k.upper(), *[key(j) for j in range(len(r["slots"]))])
+    if k == "mset":
+        a = ["MSET"]
+        for j in range(len(r["slots"])):
+            a += [key(j), "w|%s.%d.%d" % (c, i, dups[j] if dups[j] >= 0 else j)]
+        return _cmd(*a)
+    if k == "ping":
+        return _cmd("PING")
+    if k == "unknown":
+        return _cmd("FLUSHALL")
+    if k == "arity":
+        return _cmd("GET")
+    raise ValueError(k)
+
+
+def gen_seg(seed, npipes, cuts_per, tags):
+    """Groups of 1 + cuts_per scenarios: the unsegmented pipeline (role base) and segmented twins (role seg)."""
+    rng = random.Random("seg/%s" % seed)
+    slots = ["A", "A2", "B", "C"]
+    out = []
+    for p in range(npipes):
+        reqs = []
+        for _ in range(rng.choice([1, 2, 3, 4])):
+            k = rng.choice(["get", "set", "mget", "mset", "del", "ping", "get"])
+            if k in ("get", "set"):
+                reqs.append({"k": k, "slots": [rng.choice(slots)], "dups": [-1]})
+            elif k == "ping":
+                reqs.append({"k": k, "slots": [], "dups": []})
+            else:
+                sl, du = gen_keylist(rng, 4, slots)
+                reqs.append({"k": k, "slots": sl, "dups": du})
+        blob = b"".join(concrete(tags, "c1", i + 1, r) for i, r in enumerate(reqs))
+        L = len(blob)
+        variants = [[]]  # base
+        pool = []
+        # every single cut, pairs of cuts, byte-by-byte, cuts at / around CRLF and request boundaries
+        singles = [[x] for x in range(1, L)]
+        rng.shuffle(singles)
+        pool += singles
+        pool.append(list(range(1, L)))  # one byte per read
+        pool.append(list(range(2, L, 2)))
+        for _ in range(cuts_per):
+            k = rng.choice([2, 3, 5])
+            pool.append(sorted(rng.sample(range(1, L), min(k, L - 1))))
+        ends = [i + 2 for i in range(L - 1) if blob[i:i + 2] == b"\r\n"]
+        pool = [[e - 2] for e in ends if 0 < e - 2 < L] + [[e - 1] for e in ends if e - 1 < L] + [[e] for e in ends if e < L] + pool
+        seen = set()
+        for cuts in pool:
+            t = tuple(cuts)
+            if t in seen:
+                continue
+            seen.add(t)
+            variants.append(cuts)
+            if len(variants) > cuts_per:
+                break
+        while len(variants) <= cuts_per:
+            variants.append([1])
+        for v, cuts in enumerate(variants):
+            steps = [{"stim": [{"op": "send", "c": "c1", "reqs": reqs, "cuts": cuts}]}, {"stim": [], "settle": True}] + drain_steps(2, 12)
+            out.append(_norm({"id": "seg-%s-%d-%d" % (seed, p, v), "role": "base" if v == 0 else "seg", "steps": json.loads(json.dumps(steps))}))
+    return out
